@@ -50,7 +50,8 @@ func (c *Conversation) receiveUnit(m ValidMessage, forgetFragments bool) (plain 
 }
 
 func (c *Conversation) receiveWithoutOTR(message ValidMessage) (MessagePlaintext, []ValidMessage, error) {
-	return MessagePlaintext(message), nil, nil
+	// the caller wipes its copy of the message when it returns, so hand out another one
+	return MessagePlaintext(makeCopy(message)), nil, nil
 }
 
 func withoutPotentialSpaceStart(msg []byte) []byte {
